@@ -4,3 +4,4 @@ import PexpectModel.Drv.Screen
 import PexpectModel.Drv.Ansi
 import PexpectModel.Drv.Forms
 import PexpectModel.Drv.Transport
+import PexpectModel.Drv.Deadline
